@@ -102,3 +102,24 @@ func TestVerif_Streak(t *testing.T) {
 	wg.Wait()
 	r.Finish()
 }
+
+// Slow writers and rounds forced into the commit window (see C15 lock-held-window; one run at a time because the hook gate is
+// process-wide): refreshing on, user transactions holding the table lock across virtual time, and for a quarter of the main
+// goroutine's commits a reconciler round (external prune trigger) started between the commit's root store and its notifications
+// while a waiter for that commit's revision is already waiting.
+func TestVerif_LockHeldWindow(t *testing.T) {
+	r := vkit.Start(t, "C16", "lock-held-window", "exploration", rule+" (variant: refreshing always on, slow user transactions holding the table lock, reconciler rounds forced between root store and notification of a commit whose revision is being waited for)")
+	r.Require("operation_attempts", "user_transactions_holding_the_lock", "rounds_forced_into_the_commit_window")
+	n := vkit.N(400, 15000)
+	for i := 0; i < n; i++ {
+		if part, idx, ok := vkit.ReplayCase(); ok && !(part == r.Part && idx == i) {
+			continue
+		}
+		cfg := recsim.RandomConfig(r.Rand(i, 99), false)
+		cfg.Refresh, cfg.HoldLock = true, true
+		cfg.Report = map[string]bool{"pacing": true}
+		r.LogCase(i)
+		recsim.Run(t, r, i, cfg)
+	}
+	r.Finish()
+}
